@@ -32,6 +32,24 @@ MISSED = {
  "C14-m4": "injected exceptions were direct subclasses of Exception / BaseException; now user subclasses and plain instances of RuntimeError, NotImplementedError, StopIteration, KeyError, OverflowError, OSError, MemoryError, ... (this also exposed the genuine defect F8)",
  "C15-m3": "no query read an outcome the histogram does not have; added read-only lookups of absent outcomes (get, [], in, exactly_k_times_in_n, appearances_in_rolls) on stored and derived histograms",
  "C15-m4": "selectors and sources were tuples; selection rollers are now built from caller-owned lists (emptied afterwards) and one-shot iterables, then rolled",
+ "C05-m6": "bare outcomes always arrived in a list; constructions now arrive as list / tuple / generator / iterator / reversed / dict views / Counter / OrderedDict / frozenset / range objects (ascending, descending, strided, empty)",
+ "C04-m5": "slices of pools were not observed; every pool is now sliced with positive and negative steps and compared (items, ==, total) with the pool built afresh from the sliced dice",
+ "C04-m6": "repetition counts were ints; n now also arrives as float, Fraction, bool and Decimal, integral (accepted) and non-integral (TypeError)",
+ "C08-m5": "fractional limits rarely separated two re-roll paths of different weight; added weighted three-faced dice with a predicate over two faces of different weight and limits on / between the chain probabilities",
+ "C08-m6": "expand tables depended on the outcome only; added expand functions that depend on the histogram they are given (one face table per histogram, model chk_substitute2)",
+ "C01-m5": "identity / absorbing scalars were rare; added 0, 1, -1, 2 as int / bool / Fraction operands (direct and reflected) against histograms and pools with non-integral outcomes",
+ "C01-m6": "same family: h // 1 over Fraction outcomes",
+ "C06-m6": "every source was a fresh object; identical source descriptions now denote ONE object passed in several positions",
+ "C16-m6": "exactness was only checked when the implementation claimed it (a float answer was compared with a tolerance); results for Fraction-typed outcomes must now be exact rationals",
+ "C12-m6": "the comparison vocabulary had lt / ge / eq only; added ne / le / gt",
+ "C13-m5": "order statistics were asked for n >= 1 only; added n = 0 and upward sweeps of n on one object",
+ "C13-m6": "collision families were equal histograms only; added UNEQUAL histograms whose items hash alike in CPython (-1 / -2, x / x + 2**61 - 1) and the same pool question echoed across the family",
+ "C11-m5": "no selector consisted of negative indexes other than -1 only; added (-2), (-1,-2), (-2,-1), (-3,-2) + corpus entries",
+ "C14-m5": "the aborted evaluation always failed inside a callback; added evaluations that fail while enumerating a source (selection beyond the pool), at top level and nested",
+ "C14-m6": "a callback was always used with one sentinel; added mechanics that share one Python callback but differ in their sentinel, run through foreach as well as @expandable",
+ "C19-m5": "every guard was exercised on a fresh function; added a reused @expandable function called with a limit and then with every equal-valued limit of another type",
+ "C19-m6": "(caught, but as a crash of the runner: NumPy scalars in the answer) the runner now serialises foreign values as NONJSON markers, which never equal an expected answer",
+ "C15-m6": "H(n) shorthands were not part of the operation vocabulary; added H(n) for the same n as int / float / Fraction / bool / numpy.int8",
  "C16-m3": "histograms were built from mappings only; added construction from reversed pairs and from bare outcomes mixed with pairs (stored order not ascending)",
 }
 
